@@ -204,6 +204,15 @@ def api_search(chk, n_cases):
             rho0 = rho0 / np.trace(rho0)
             unique = rng.random() < 0.75
         info = {"dt": dt, "n": n, "start": start, "dkmax": dkmax, "tau_add": tau, "system": kind, "epsrel": eps, "unique": unique}
+        # how the propagators of a time-dependent system are obtained: sampled at the quarter points (subdiv_limit=None, both
+        # methods) or integrated with the SAME settings in both methods (every third case; the pulse of it == 0 in every run)
+        sub, leps = None, None
+        if it % 3 == 0 and it != 6:
+            sub, leps = rng.choice([(64, 1e-10), (256, 1e-9)])
+            par = oqupy.TempoParameters(dt=par.dt, epsrel=par.epsrel, dkmax=par.dkmax, add_correlation_time=par.add_correlation_time,
+                                        subdiv_limit=sub, liouvillian_epsrel=leps)
+            info["liouvillian_integration"] = [sub, leps]
+        kw_int = dict(subdiv_limit=None) if sub is None else dict(subdiv_limit=sub, liouvillian_epsrel=leps)
         try:
             if it % 3 == 2:
                 # the one-call wrapper must be the same computation
@@ -217,10 +226,10 @@ def api_search(chk, n_cases):
             pt = quiet(oqupy.pt_tempo_compute, bath, start, start + n * dt, parameters=par, unique=unique,
                        process_tensor_file=True if file_backed else None, progress_type="silent")
             dp = np.array(quiet(oqupy.compute_dynamics, sysm, initial_state=rho0, process_tensor=pt, start_time=start,
-                                subdiv_limit=None, progress_type="silent").states)
+                                progress_type="silent", **kw_int).states)
             if n >= 4:
                 dq_pre = np.array(quiet(oqupy.compute_dynamics, sysm, initial_state=rho0, process_tensor=pt, start_time=start, num_steps=n - 2,
-                                        subdiv_limit=None, progress_type="silent").states)
+                                        progress_type="silent", **kw_int).states)
             if file_backed:
                 pt.remove()
         except Exception as ex:
